@@ -277,18 +277,23 @@ func init() {
 	fw.Register(&fw.Prop{
 		ID:    "C17",
 		Level: "exploration",
-		Rule: "systematic: every operator (14 binary, 2 unary, ternary) as parent x every operator as child in every operand slot, ternaries whose branches start with '[' or a digit, " +
+		Rule: "deep: 35 bracketing constructs nested 24, 200 and 3000 deep are round-tripped, and printing at depth 24 may make at most 64 times the heap allocations of depth 12; " +
+			"systematic: every operator (14 binary, 2 unary, ternary) as parent x every operator as child in every operand slot, ternaries whose branches start with '[' or a digit, " +
 			"negative literals after minus, exponent and integral floats, hex ints, strings needing every escape, map literals with hostile keys, all access forms; random: seeded typed " +
 			"and untyped trees of depth <= 5/7; each printed (minimal/redundant parentheses, tight/wide spacing), parsed by parse.Expr, printed by String(), parsed again, trees compared " +
 			"ignoring positions; also as a print command with directives inside a template; and no two different trees seen in a process may share a printed form. " +
 			"distinct = distinct source text; non-trivial = nesting depth >= 2",
 		N: func(tier string) int {
 			if tier == "thorough" {
-				return len(c17Systematic())*3 + 10000000
+				return len(c17Deep)*3 + len(c17Systematic())*3 + 10000000
 			}
-			return len(c17Systematic())*3 + 500000
+			return len(c17Deep)*3 + len(c17Systematic())*3 + 500000
 		},
 		Run: func(ctx *fw.Ctx, i int) fw.Result {
+			if i < len(c17Deep)*3 {
+				return c17DeepCase(ctx, c17Deep[i/3], []int{24, 200, 3000}[i%3])
+			}
+			i -= len(c17Deep) * 3
 			sys := c17Systematic()
 			var e ref.Expr
 			if i < len(sys)*3 {
@@ -383,6 +388,9 @@ func init() {
 		},
 		Floors: func(obs map[string]int64, cells map[string]bool, tier string) []string {
 			var why []string
+			if obs["deep_roundtrips"] == 0 || obs["print_work_pairs"] == 0 {
+				why = append(why, "no deeply nested expression was round-tripped")
+			}
 			if obs["expr_roundtrips"] == 0 || obs["print_roundtrips"] == 0 {
 				why = append(why, "no round trip completed")
 			}
@@ -390,6 +398,50 @@ func init() {
 		},
 		Assumptions: []string{"the oracle is the real parser itself, used twice; tree comparison by reflection ignores ast.Pos and StringNode.Quoted"},
 	})
+}
+
+// c17Deep: every bracketing construct, nested.
+var c17Deep = [][2]string{{"[", "]"}, {"(", ")"}, {"round(", ")"}, {"['k': ", "]"}, {"$a ? 1 : [", "]"}, {"$a ? [", "] : 2"}, {"[", "] ? 1 : 2"}, {"not ", ""}, {"-", ""},
+	{"$a ?: (", ")"}, {"$a[", "]"}, {"$a?[", "]"}, {"-(", ")"}, {"$a ? 1 : ", ""}, {"1 + (", ")"}, {"(", ") + 1"}, {"$a and (", ")"}, {"[1, ", "]"}, {"f(1, ", ")"},
+	{"$a.b[", "].c"}, {"$a ?: [", "]"}, {"$a ? 1 : -", ""}, {"['k': f(", ")]"}, {"(not [", "])"}, {"$a ? f([", "]) : 1"}, {"1 < ", ""}, {"$a == (", ")"},
+	{"$a ? 1 : ($b ?: ", ")"}, {"$a ? ($b ? 1 : ", ") : 3"}, {"($a ? 1 : ", ") ? 2 : 3"}, {"1 - (2 - ", ")"}, {"(1 - ", ") - 2"}, {"$a ?: ($b ? 1 : ", ")"}, {"not (not $a or ", ")"}, {"-(-1 * ", ")"}}
+
+// c17DeepCase round-trips a construct nested d deep; at depth 24 the printer's work (heap allocations) is compared with depth 12.
+func c17DeepCase(ctx *fw.Ctx, p [2]string, d int) fw.Result {
+	mk := func(d int) string { return strings.Repeat(p[0], d) + "$x" + strings.Repeat(p[1], d) }
+	s0 := mk(d)
+	ctx.Eval(s0)
+	ctx.Cell("deep")
+	t0, err := parse.Expr(s0)
+	if err != nil || t0 == nil {
+		return fw.Result{Verdict: fw.Violated, Key: "generated-source-rejected", Case: s0, Msg: fmt.Sprintf("parse.Expr of %q nested %d deep: %v", p[0]+"$x"+p[1], d, err)}
+	}
+	var s1 string
+	mFull := mallocsOf(func() { s1 = t0.String() })
+	t1, err := parse.Expr(s1)
+	if err != nil || t1 == nil {
+		return fw.Result{Verdict: fw.Violated, Key: "printed-form-does-not-parse", Case: map[string]string{"source": s0, "printed": fw.Trim(s1, 2000)},
+			Msg: fmt.Sprintf("%q nested %d deep prints as something that does not parse: %v", p[0]+"$x"+p[1], d, err)}
+	}
+	if ok, why := astEqual(t0, t1); !ok {
+		return fw.Result{Verdict: fw.Violated, Key: "printed-form-parses-to-different-tree", Case: map[string]string{"source": s0, "printed": fw.Trim(s1, 2000)},
+			Msg: fmt.Sprintf("%q nested %d deep prints as something that parses to a different tree (%s)", p[0]+"$x"+p[1], d, why)}
+	}
+	ctx.Obs("deep_roundtrips", 1)
+	if d == 24 {
+		th, err := parse.Expr(mk(12))
+		if err != nil {
+			return fw.Result{Verdict: fw.Inconclusive, Key: "half-depth-rejected", Case: mk(12)}
+		}
+		mHalf := mallocsOf(func() { _ = th.String() })
+		ctx.Obs("print_work_pairs", 1)
+		ctx.Max("max_print_alloc_ratio_depth24_vs_12", float64(mFull)/float64(mHalf+1))
+		if mFull > 64*mHalf+2000 {
+			return fw.Result{Verdict: fw.Violated, Key: "print-work-explodes-with-depth", Case: map[string]string{"source": s0},
+				Msg: fmt.Sprintf("printing %q nested 12 deep makes %d heap allocations, nested 24 deep %d: error messages and the message extractor print expressions", p[0]+"$x"+p[1], mHalf, mFull)}
+		}
+	}
+	return fw.Result{Verdict: fw.Held}
 }
 
 func findPrint(f *ast.SoyFileNode) *ast.PrintNode {
